@@ -1,6 +1,7 @@
 (* C05 - glob returns exactly the paths the pattern denotes on the real tree.  Statements only. *)
 From WC Require Import Str Glob.
-From WC.Proofs Require Import GlobLemmas.
+From WC.Proofs Require Import GlobLemmas GlobSplitLemmas.
+From WC Require Import GlobSplit.
 
 (* every path the one-directory walk yields is the current directory joined with an entry the OS listed there
    (or one of the two fake entries `.`/`..`), for every OS oracle, matcher, configuration and fuel *)
@@ -18,3 +19,12 @@ Theorem C05_listing_complete : forall scandir segmatch cf fuel curdir m dir_only
   In (pjoin curdir name, if is_special name then true else isdir) hits.
 Proof. exact glob_dir_shallow_complete. Qed.
 Print Assumptions C05_listing_complete.
+
+(* magic/literal part classification (_GlobSplit): for every pattern and flag word, every part but the last is a
+   directory part; a part is marked magic exactly when its text contains a magic symbol of the flag word (a drive
+   part never); a part marked globstar is `**` or `***` *)
+Theorem C05_parts_classified : forall flags b p parts,
+  gsplit flags b p = inl parts ->
+  parts <> [] /\ all_but_last_dironly parts /\ Forall (part_ok (mk_gscfg flags b)) parts.
+Proof. exact gsplit_parts. Qed.
+Print Assumptions C05_parts_classified.
